@@ -46,18 +46,22 @@ def decodeSlice (c : Codec) (r : Bytes) (a b : Nat) : Outcome Text :=
   | some t => .ok t
   | none => .escape .unicodeError
 
-/-- phase 2, one record: `some row` when it belongs to the requested table -/
+/-- phase 2, one record: `some row` when it belongs to the requested table.  Every failure
+    here is a UnicodeDecodeError of some slice, so the order of evaluation does not matter. -/
 def rowOf (c : Codec) (cols : List (Nat × Nat)) (table : Text) (expanded : Bool) (ix : Index) (r : Bytes) :
-    Outcome (Option Row) := do
-  let tid ← (if expanded then (decodeSlice c r 11 19).bind (fun t => .ok (some t))
-             else (decodeSlice c r 8 11).bind (fun s => .ok (ix.lookup s)))
-  let eff ← (if expanded then decodeSlice c r 0 10 else decodeSlice c r 0 7)
-  let code ← (if expanded then decodeSlice c r 10 11 else decodeSlice c r 7 8)
-  if tid == some table then do
-    let off := if expanded then 0 else 8
-    let vals ← Outcome.mapO (fun (se : Nat × Nat) => decodeSlice c r (se.1 - off) (se.2 - off)) cols
-    .ok (some ⟨table, eff, code, vals⟩)
-  else .ok none
+    Outcome (Option Row) :=
+  let off := if expanded then 0 else 8
+  match (if expanded then decodeSlice c r 11 19 else decodeSlice c r 8 11),
+        decodeSlice c r 0 (if expanded then 10 else 7),
+        decodeSlice c r (if expanded then 10 else 7) (if expanded then 11 else 8) with
+  | .ok key, .ok eff, .ok code =>
+    let tid := if expanded then some key else ix.lookup key
+    if tid == some table then
+      match Outcome.mapO (fun (se : Nat × Nat) => decodeSlice c r (se.1 - off) (se.2 - off)) cols with
+      | .ok vals => .ok (some ⟨table, eff, code, vals⟩)
+      | _ => .escape .unicodeError
+    else .ok none
+  | _, _, _ => .escape .unicodeError
 
 /-- how iterating the reader ended -/
 inductive PEnd
